@@ -579,7 +579,7 @@ fn login_sequences(report: &Report, o: Oracle, cl: &Classes, tier: Tier, seed: u
                 Step::Group { g, modulus } => {
                     let (mname, m) = &mods[*modulus];
                     let m_le = m.to_le_padded::<32>();
-                    let a = refmodel::ctr_array::<32>(seed, &format!("{tag}-ga"));
+                    let a = ordinary_key(seed, &format!("{tag}-ga"));
                     let salt = [3u8; 32];
                     let bpub = le32_from_u64(1234567);
                     let bk = match PublicKey::from_le_bytes(bpub) {
